@@ -52,6 +52,33 @@ def feat(**kw):
     return f
 
 
+def deepen(f):
+    """wider bounds for the thorough tier: more framers, larger and deeper forests, more auxes, longer runs"""
+    g = dict(f)
+    g["nframers"] = (f["nframers"][0], f["nframers"][1] + 1)
+    g["nframes"] = (f["nframes"][0] + 1, f["nframes"][1] + 4)
+    g["maxdepth"] = f["maxdepth"] + 1
+    g["ticks"] = (f["ticks"][0] + 4, f["ticks"][1] + 16)
+    g["nplan"] = (f["nplan"][0] + 1, f["nplan"][1] + 5)
+    if f["naux"][1]:
+        g["naux"] = (f["naux"][0], f["naux"][1] + 2)
+    if f["nslaves"][1]:
+        g["nslaves"] = (f["nslaves"][0], f["nslaves"][1] + 1)
+    g["ngo"] = (f["ngo"][0], f["ngo"][1] + 1)
+    return g
+
+
+def nfeats(feats, ctx):
+    """feature-set indexes used by a tier: thorough also draws the deepened variant of every set"""
+    return len(feats) if ctx.quick else 2 * len(feats)
+
+
+def pickfeat(feats, fi):
+    if fi < len(feats):
+        return feat(**feats[fi])
+    return deepen(feat(**feats[fi - len(feats)]))
+
+
 def rint(rng, lohi):
     return rng.randint(lohi[0], lohi[1])
 
